@@ -649,6 +649,8 @@ def run_with_twin(sc):
 
 
 def run_once(sc):
+    if any(o["kind"] == "mutate_project" for o in sc["ops"]):
+        sc = copy.deepcopy(sc)          # the run changes the project: never touch the caller's scenario
     env = session.build(sc)
     sim, net, world, ctl = env.sim, env.net, env.world, env.ctl
     hits = world.hits
@@ -683,6 +685,24 @@ def run_once(sc):
                              f"({getattr(res, '__cause__', None)!r})", what="exception" if outcome != "ok" else "false")
                     evals["C05"] += 1
                     break
+            elif kind == "mutate_project":
+                # the program in the controller changes between two uploads (e.g. a download): every structure
+                # gets renamed members and a new handle; the next upload has to reflect that
+                for tname, td in project["types"].items():
+                    if td.get("string_cap") is not None:
+                        continue
+                    td["handle"] = (td["handle"] * 7 + 13) % 65535 + 1
+                    for m in td["members"]:
+                        if m["name"] and not m["hidden"]:
+                            m["name"] = m["name"] + "_v2"
+                ref = Ref(project)
+                shape.append(("mutate_project",))
+            elif kind == "get_tag_list" and op.get("inject"):
+                # the controller refuses part of this upload: a library exception is a legitimate outcome
+                outcome, res = harness.call(sim, drv.get_tag_list, op.get("program"))
+                shape.append(("get_tag_list_refused", outcome))
+                if outcome not in ("ok", "library"):
+                    hits.hit("C05", "upload.failed", f"refused upload raised {type(res).__name__}: {res}", what="foreign-exception")
             elif kind == "get_tag_list":
                 outcome, res = harness.call(sim, drv.get_tag_list, op.get("program"))
                 shape.append(("get_tag_list", outcome))
@@ -961,6 +981,14 @@ def gen(seed, tier, prop="C01"):
         if r.random() < 0.06:
             ops.append({"id": oid + "c", "kind": "close"})
             ops.append({"id": oid + "r", "kind": "open"})
+    if prop == "C05" and project["types"] and r.random() < 0.2:
+        # a refused upload, then the program changes (e.g. a download), then a retry: always last, the
+        # requests generated above refer to the old member names
+        ops.append({"id": "ma", "kind": "get_tag_list", "program": None,
+                    "inject": [{"where": "template", "match": {}, "status": r.choice((0x05, 0x08, 0xFF)), "ext": [],
+                                "skip": r.choice((0, 1, 2, 3))}]})
+        ops.append({"id": "mb", "kind": "mutate_project"})
+        ops.append({"id": "mc", "kind": "get_tag_list", "program": "*" if with_prog else None})
     if r.random() < 0.7:
         ops.append({"id": "oz", "kind": "close"})
     sc["ops"] = ops
